@@ -506,6 +506,11 @@ func checkT5(c *Ctx, jr *joinRoles) {
 		for _, b := range fn.Blocks {
 			for _, in := range b.Instrs {
 				if call, ok := in.(*ssa.Call); ok {
+					if cal := p.Callee(call); cal != nil && p.funcDisplay(cal) == "(*time.Ticker).Stop" {
+						if _, isDefer := in.(*ssa.Defer); !isDefer && (blockInLoop(call.Block()) || !isLoopFn(jr, fn)) {
+							c.R.Fail("T5", joinKey(jr, fn, "ticker-stop"), p.InstrPos(call), "the ticker is stopped while the discipline runs (not by a defer / after the receive loop): until something re-arms it the timeout is not examined and accumulated elements wait without bound")
+						}
+					}
 					if cal := p.Callee(call); cal != nil && p.funcDisplay(cal) == "(*time.Ticker).Reset" {
 						_, path, okp := p.Sym(call.Call.Args[1]).FieldPath()
 						c.R.Check(okp && path[len(path)-1] == "interruptInterval", "T5", joinKey(jr, fn, "ticker-reset"), p.InstrPos(call), "ticker re-armed with interruptInterval", "the ticker is re-armed with "+p.Sym(call.Call.Args[1]).String()+" instead of interruptInterval: afterwards the timeout is examined too rarely and elements wait longer than Timeout*(1+1/divider)")
@@ -722,4 +727,13 @@ func checkT5(c *Ctx, jr *joinRoles) {
 		}
 		c.R.Check(len(missing) == 0, "T5", jr.key+"#errors", p.Pos(formulaFns[0].Pos()), "inaccuracy 0, divider 0 and zero period are rejected", strings.Join(dedup(missing), "; "))
 	}
+}
+
+func isLoopFn(jr *joinRoles, fn *ssa.Function) bool {
+	for _, l := range jr.loops {
+		if l == fn {
+			return true
+		}
+	}
+	return false
 }
